@@ -171,7 +171,7 @@ func (e *Engine) contractFor(fn *types.Func) *Contract {
 
 // constTable evaluates a package-level table whose initialiser is a literal
 // and which is never assigned in its package.
-func (e *Engine) constTable(x *Exec, o *types.Var) (Value, bool) {
+func (e *Engine) constTable(x *Exec, o *types.Var, cur *State) (Value, bool) {
 	key := o.Pkg().Path() + "." + o.Name()
 	te, ok := e.tables[key]
 	if !ok {
@@ -192,6 +192,10 @@ func (e *Engine) constTable(x *Exec, o *types.Var) (Value, bool) {
 	sub.info = te.pkg.TypesInfo
 	sub.c = nil
 	st := newState()
+	if _, isMap := o.Type().Underlying().(*types.Map); isMap && cur != nil {
+		// a map table lives in the heap: it is built in the state that reads it
+		st = cur
+	}
 	nerr := len(x.errs)
 	v := sub.expr(te.expr, st)
 	x.freshN = sub.freshN
